@@ -429,7 +429,12 @@ def run(ctx):
     run_flow(ctx, stats, nontrivial, samples, RowParser, CellParser, RowDataSheet, SheetParser, FlowRowModel,
              CSVSheetReader, XLSXSheetReader)
 
-    # ------------------------------------------------ one cell text through an xlsx file
+    # ------------------------------------------------ sessions: operation sequences on long-lived classes / parsers
+    # (after the older streams, so that they see the random choices they saw before this stream existed)
+    import c07_sessions
+    c07_sessions.run_sessions(ctx, stats)
+
+    # ------------------------------------------------ one cell text through an xlsx file (FX7; last)
     run_xlsx_cells(ctx, stats)
 
     ctx.stats["c07"] = stats
@@ -442,7 +447,15 @@ def run(ctx):
         "also perturbed (dropped/swapped columns, bad indices, annotations, * headers, random cell text) into a "
         "malformed parse stream; flow rows generated per row type through the regenerated tables and through csv/xlsx "
         "files. non-trivial = distinct in-domain case whose layout packs something, renames a field, or whose cells "
-        "contain a separator, backslash or newline")
+        "contain a separator, backslash or newline. SESSIONS (harness/c07_sessions.py; distribution in stats.c07.sessions): "
+        "families of classes (roots, classes derived from an earlier class that override defaults/types, add fields, "
+        "re-define the renaming functions in conflict with the base or inherit them, shared sub-model classes, unrelated "
+        "classes with the same __name__ and field names) and sequences of 3-14 operations (round trip, unparse with "
+        "excluded headers, parse of rows written for this or another class or malformed, templated rows with {{ }} and "
+        "native {@ @} cells, csv export + re-read, a new RowParser) on ONE long-lived set of classes / RowParsers / "
+        "CellParser; values take the defaults other classes of the family have for a field of the same name; every "
+        "step is compared with the same operation on objects built afresh, with the extracted state machine "
+        "run_session, and (in-domain) with the instance written")
     v.coverage["samples"] = samples[:5]
     v.assumptions += [
         "cells contain no Jinja template opener ({{ {% {#): the model's cell parser is CellParser.parse without templating",
@@ -505,7 +518,7 @@ def is_formula_text(s):
 def run_xlsx_cells(ctx, stats):
     """The xlsx cell stream (FX7, finding xlsx-cell-starting-with-equals-sign): representable cell texts — a third of them
     of the form '=…' — written by RowDataSheet.export(..., 'xlsx') next to an id cell, read by XLSXSheetReader.
-    Oracle: every text comes back as written.  Correspondence: Io/XlsxCell.v (engine 107 fn 8) says the same."""
+    Oracle: every text comes back as written.  Correspondence: Io/XlsxCell.v (engine 107 fn 10) says the same."""
     v, rng, m = ctx.v, ctx.rng, ctx.model
     n = (400 if ctx.tier == "thorough" else 60) * ctx.scale
     texts = ["=2+2 is four", "=", "==", "a=b"]
@@ -534,7 +547,7 @@ def run_xlsx_cells(ctx, stats):
         v.failing_input("file-roundtrip-xlsx", f"cell texts changed by the xlsx file: {other[:6]!r}",
                         dict(fn="xlsx_cells", texts=[t for t, _ in other][:8]))
     if m:
-        outs = model_ask(m, [f"(107 8 {rowlib.e_str(t)})" for t in texts])
+        outs = model_ask(m, [f"(107 10 {rowlib.e_str(t)})" for t in texts])
         for t, b, o in zip(texts, back, outs):
             mo = rowlib.d_str(o) if isinstance(o, list) and all(isinstance(c, int) for c in o) else None
             if mo is None:
@@ -845,27 +858,59 @@ def file_failure_class(desc, rows, r, fmt, multi, parser, insts, T, X):
     characters starting with "=" comes back empty (openpyxl stores it as a formula)."""
     if r[0] != "ok" or len(r[1]) != len(rows):
         return f"file-roundtrip-{fmt}"
-    from rpft.parsers.common.rowdatasheet import RowDataSheet
     dicts = [dict(rowgen.impl_unparse(parser, i, T, X)) for i in insts]
-    # the columns in the order the sheet has them (the implementation's own merge of the rows' header orders): the order
-    # matters when a row has a whole-list cell and element cells of the same list (`message_text` of a begin_for row next
-    # to `mainarg_iterlist.1` columns that another row brought in) — FX7: the prediction used to re-sort the columns
-    headers = RowDataSheet(parser, insts, set(T), set(X))._get_headers()
+    headers = []
+    for d in dicts:
+        for h in d:
+            if h not in headers:
+                headers.append(h)
 
-    def predicted(eq):
+    # the column order of the sheet itself (a topological order of the rows' header chains): with a row context a
+    # blank padding cell can be re-keyed onto a column the row did write (message_text -> webhook.body for a
+    # call_webhook row), and then WHICH of the two comes later decides what is read
+    from rpft.parsers.common.rowdatasheet import RowDataSheet
+    sheet_order = run_cli_mode(lambda: RowDataSheet(parser, insts, set(T), set(X))._get_headers())
+    sheet_order = sheet_order[1] if sheet_order[0] == "ok" and sorted(sheet_order[1]) == sorted(headers) else None
+
+    def predicted(eq, order):
         out = []
         for d in dicts:
             cells = {h: d.get(h, "") for h in headers}
             if eq:
                 cells = {h: ("" if s.startswith("=") and len(s) > 1 else s) for h, s in cells.items()}
+            if order is None:
+                # column order inside one row does not matter for these rows (C07-3), only list order
+                cells = dict(sorted(cells.items(), key=lambda kv: [int(c) if c.isdigit() else 0 for c in kv[0].split(".")]))
+            else:
+                cells = {h: cells[h] for h in order}
             p = impl_parse(parser, list(cells.items()))
             out.append(p[1] if p[0] == "ok" else None)
         return out
 
-    if multi and all(a is not None and _deep_eq(a, b) for a, b in zip(predicted(False), r[1])):
+    orders = [None] + ([sheet_order] if sheet_order is not None else [])
+
+    def rekey_collision():
+        """some row has two columns of the sheet that the row context re-keys to the SAME field, with different
+        cells (its own column and the blank padding of a column other rows use)"""
+        for d in dicts:
+            cells = {h: d.get(h, "") for h in (sheet_order or headers)}
+            seen = {}
+            for h, s in cells.items():
+                k = run_cli_mode(lambda: parser.model.header_name_to_field_name_with_context(h, cells))
+                if k[0] != "ok":
+                    continue
+                if k[1] in seen and seen[k[1]] != s:
+                    return True
+                seen[k[1]] = s
+        return False
+
+    if multi and sheet_order is not None and rekey_collision() \
+            and all(a is not None and _deep_eq(a, b) for a, b in zip(predicted(fmt == "xlsx", sheet_order), r[1])):
+        return "sheet-padding-cell-rekeyed-onto-written-column"
+    if multi and any(all(a is not None and _deep_eq(a, b) for a, b in zip(predicted(False, o), r[1])) for o in orders):
         return "sheet-padding-cells-become-list-elements"
     if fmt == "xlsx" and any(s.startswith("=") and len(s) > 1 for d in dicts for s in d.values()):
-        if all(a is not None and _deep_eq(a, b) for a, b in zip(predicted(True), r[1])):
+        if any(all(a is not None and _deep_eq(a, b) for a, b in zip(predicted(True, o), r[1])) for o in orders):
             return "xlsx-cell-starting-with-equals-sign"
     return f"file-roundtrip-{fmt}"
 
@@ -951,6 +996,9 @@ def replay(rep):
     from rpft.parsers.sheets import CSVSheetReader, XLSXSheetReader
 
     r = rep["replay"]
+    if r["fn"] in ("session", "sessions"):
+        import c07_sessions
+        return c07_sessions.replay_session(r)
     if r["fn"] == "order":
         class _V:
             coverage = {"evaluations": 0}
